@@ -12,6 +12,9 @@ import (
 	"encoding/hex"
 	"encoding/json"
 	"fmt"
+	"os"
+	"os/exec"
+	"path/filepath"
 	"sort"
 	"strings"
 	"sync"
@@ -148,6 +151,22 @@ type Input struct {
 	Ctxs  []Ctx  `json:"ctxs"`
 	Timed bool   `json:"timed"`
 	W     int    `json:"workers"`
+	Eq    *EqIn  `json:"eq,omitempty"` // equality-only case (no model prediction); the other fields are unused
+}
+
+// equality-only cases: kind "lib" (optimising vs plain builder over helpers that are not modelled) and
+// kind "cli" (the rare binary: <switch> --funcs F expression <call> [--no-optimize] vs the inlined body)
+type EqIn struct {
+	Kind     string     `json:"kind"`
+	Tmpl     string     `json:"tmpl,omitempty"`
+	Ctxs     []Ctx      `json:"ctxs,omitempty"`
+	Switches []string   `json:"switches,omitempty"`
+	Funcs    string     `json:"funcs,omitempty"`
+	Files    [][2]string `json:"files,omitempty"` // auxiliary files (name, content) next to the funcs file
+	Call     string     `json:"call,omitempty"`
+	Inlined  string     `json:"inlined,omitempty"`
+	Data     []string   `json:"data,omitempty"`
+	EnvFuncs bool       `json:"env_funcs,omitempty"` // pass the funcs file through RARE_FUNC_FILES instead of --funcs
 }
 type Row struct {
 	Opt, Plain, Inl string
@@ -388,6 +407,244 @@ func mkCase(in Input, out Output, nontrivial bool, tags []string) Case {
 		Nontrivial: nontrivial,
 		Tags:       tags,
 	}
+}
+
+
+// ---------------------------------------------------------------- equality-only cases
+func runEqLib(e *EqIn) (groups [][]string) {
+	fail := func(msg string) [][]string { return [][]string{{"\x01" + msg, ""}} }
+	var kO, kP *expressions.CompiledKeyBuilder
+	p := guarded(func() {
+		loadMu.Lock()
+		defer loadMu.Unlock()
+		funclib.Additional = make(funclib.FunctionSet)
+		kO, _ = funclib.NewKeyBuilderEx(true).Compile(e.Tmpl)
+		kP, _ = funclib.NewKeyBuilderEx(false).Compile(e.Tmpl)
+	})
+	if p != "" {
+		return fail("compile: " + p)
+	}
+	// each builder sees the contexts in the same order (some stages remember the first value they saw)
+	p = guarded(func() {
+		for _, c := range e.Ctxs {
+			a, _ := evalCount(kO, c)
+			b, _ := evalCount(kP, c)
+			groups = append(groups, []string{a, b})
+		}
+	})
+	if p != "" {
+		return fail("eval: " + p)
+	}
+	return
+}
+
+var (
+	rareOnce sync.Once
+	rareBin  string
+	rareErr  string
+)
+
+func workdir() string {
+	w := os.Getenv("VERIF_WORK")
+	if w == "" {
+		w = filepath.Join(os.TempDir(), "verifh")
+	}
+	os.MkdirAll(w, 0o755)
+	return w
+}
+
+func buildRare() {
+	repo := os.Getenv("VERIF_REPO")
+	if repo == "" {
+		repo = "/repo"
+	}
+	rareBin = filepath.Join(workdir(), fmt.Sprintf("rare-c10-%d", os.Getpid()))
+	cmd := exec.Command("go", "build", "-o", rareBin, ".")
+	cmd.Dir = repo
+	cmd.Env = append(os.Environ(), "GOFLAGS=-mod=mod", "GOPROXY=off", "GOSUMDB=off", "GOTOOLCHAIN=local")
+	if out, err := cmd.CombinedOutput(); err != nil {
+		rareErr = err.Error() + ": " + string(out)
+	}
+}
+
+func runRare(dir string, env []string, args ...string) string {
+	cmd := exec.Command(rareBin, args...)
+	cmd.Dir = dir
+	cmd.Env = append([]string{"PATH=" + os.Getenv("PATH"), "HOME=" + dir, "TERM=dumb"}, env...)
+	var out strings.Builder
+	cmd.Stdout = &out
+	done := make(chan error, 1)
+	if err := cmd.Start(); err != nil {
+		return "\x01start: " + err.Error()
+	}
+	go func() { done <- cmd.Wait() }()
+	select {
+	case err := <-done:
+		code := 0
+		if err != nil {
+			if ee, ok := err.(*exec.ExitError); ok {
+				code = ee.ExitCode()
+			} else {
+				return "\x01wait: " + err.Error()
+			}
+		}
+		return fmt.Sprintf("%s|exit=%d", out.String(), code)
+	case <-time.After(30 * time.Second):
+		cmd.Process.Kill()
+		return "\x01timeout"
+	}
+}
+
+func runEqCli(e *EqIn) [][]string {
+	rareOnce.Do(buildRare)
+	if rareErr != "" {
+		return [][]string{{"\x01build: " + rareErr, ""}}
+	}
+	dir, err := os.MkdirTemp(workdir(), "c10cli")
+	if err != nil {
+		return [][]string{{"\x01" + err.Error(), ""}}
+	}
+	defer os.RemoveAll(dir)
+	os.WriteFile(filepath.Join(dir, "f.funcs"), []byte(e.Funcs), 0o644)
+	for _, f := range e.Files {
+		os.WriteFile(filepath.Join(dir, f[0]), []byte(f[1]), 0o644)
+	}
+	var data []string
+	for _, d := range e.Data {
+		data = append(data, "-d", d)
+	}
+	withFuncs := append([]string{}, e.Switches...)
+	var env []string
+	if e.EnvFuncs {
+		env = []string{"RARE_FUNC_FILES=" + filepath.Join(dir, "f.funcs")}
+	} else {
+		withFuncs = append(withFuncs, "--funcs", "f.funcs")
+	}
+	call := append(append(append([]string{}, withFuncs...), "expression"), data...)
+	plain := append(append(append([]string{}, e.Switches...), "expression"), data...)
+	g := []string{
+		runRare(dir, env, append(call, e.Call)...),
+		runRare(dir, env, append(call, "--no-optimize", e.Call)...),
+		runRare(dir, nil, append(plain, e.Inlined)...),
+		runRare(dir, nil, append(plain, "--no-optimize", e.Inlined)...),
+	}
+	return [][]string{g}
+}
+
+func runEq(e *EqIn) [][]string {
+	if e.Kind == "cli" {
+		return runEqCli(e)
+	}
+	return runEqLib(e)
+}
+
+func mkEqCase(e *EqIn, groups [][]string, tags []string) Case {
+	var gs []string
+	for _, g := range groups {
+		gs = append(gs, HLS(g))
+	}
+	in := Input{Eq: e}
+	kb, _ := json.Marshal(in)
+	return Case{
+		Coq:        "ce " + CoqList(gs),
+		Desc:       map[string]any{"input": in, "observed": map[string]any{"groups": groups}},
+		Key:        string(kb),
+		Nontrivial: true,
+		Tags:       tags,
+	}
+}
+
+// helpers that are not modelled, with constant, dynamic and mixed text in their arguments:
+// only "optimising builder = plain builder" on every context is checked
+func (g *gen) eqLibCases() []Case {
+	r := g.r
+	empty := Ctx{M: []string{}, K: map[string]string{}}
+	mk := func(vals ...string) Ctx { return Ctx{M: vals, K: map[string]string{}} }
+	day := fmt.Sprintf("20%02d-%02d-%02d", r.Range(10, 30), r.Range(1, 12), r.Range(1, 28))
+	clock := fmt.Sprintf("%02d:%02d:%02d", r.Range(0, 23), r.Range(0, 59), r.Range(0, 59))
+	clock2 := fmt.Sprintf("%02d:%02d:%02d", r.Range(0, 23), r.Range(0, 59), r.Range(0, 59))
+	n1, n2 := fmt.Sprint(r.Range(1, 5000)), fmt.Sprint(r.Range(1, 90))
+	type tc struct {
+		tmpl   string
+		ctxs   []Ctx
+		poison bool // time auto-detection over an argument mixing literal text and a dynamic part
+	}
+	list := []tc{
+		{`{time "` + day + ` {0}"}`, []Ctx{mk(clock), mk(clock2)}, true},
+		{`{time "` + day + ` {0}" cache}`, []Ctx{mk(clock)}, true},
+		{`{time "` + day + `T{0}Z"}`, []Ctx{mk(clock), mk(clock2)}, true},
+		{`x{sumi 1 {time "` + day + ` {0}"}}`, []Ctx{mk(clock)}, true},
+		{`{buckettime "` + day + ` {0}" hour}`, []Ctx{mk(clock), mk(clock2)}, true},
+		{`{timeformat {time "` + day + ` {0}"} RFC3339}`, []Ctx{mk(clock)}, true},
+		{`{time {0}}`, []Ctx{mk(day + " " + clock), mk(day + " " + clock2)}, false},
+		{`{time "{0} {1}"}`, []Ctx{mk(day, clock), mk(day, clock2)}, false},
+		{`{time {0} RFC3339}`, []Ctx{mk(day + "T" + clock + "Z")}, false},
+		{`{time "` + day + ` ` + clock + `"} {0}`, []Ctx{mk("a")}, false},
+		{`{time "` + day + ` {0}" auto}`, []Ctx{mk(clock)}, false},
+		{`{buckettime {0} day}`, []Ctx{mk(day + " " + clock)}, false},
+		{`{timeattr {time {0}} weekday}-{timeattr {time "` + day + `"} quarter}`, []Ctx{mk(day)}, false},
+		{`{timeformat {0} "2006-01-02" utc}|{timeformat ` + n1 + `000 RFC3339}`, []Ctx{mk("1577836800")}, false},
+		{`{duration {0}s}/{duration ` + n2 + `m}/{durationformat {1}}`, []Ctx{mk(n2, n1)}, false},
+		{`{sumf {0} 1.5} {multf 2 ` + n2 + `.5} {divf {0} 4}`, []Ctx{mk(n1)}, false},
+		{`{round {divf {0} 3} 2} {round ` + n1 + `.567 1} {ceil {0}.2} {floor 2.7}`, []Ctx{mk(n2)}, false},
+		{`{percent {0} 1 0 200} {percent 0.25} {hf {0}.5} {hf ` + n1 + `.25}`, []Ctx{mk(n2)}, false},
+		{`{format "%s-%5s" {0} x} {format %d-%s ` + n1 + ` {0}}`, []Ctx{mk("ab")}, false},
+		{`{@join {@split {0} ,} -} {@split "a,b" ,} {@slice {@split {0} ,} 1} {@select {@split {0} ,} ` + fmt.Sprint(r.Range(-2, 3)) + `}`, []Ctx{mk("p,q,r")}, false},
+		{`{@range {0}} {@range 1 ` + fmt.Sprint(r.Range(2, 6)) + `} {@join {@range 0 {0} 2} +}`, []Ctx{mk("5")}, false},
+		{`{basename {0}} {dirname /a/b/c.txt} {extname {0}}`, []Ctx{mk("/x/y/z.log")}, false},
+		{`{json {0} a.b} {json "\{\"k\":` + n1 + `\}" k}`, []Ctx{mk(`{"a":{"b":7}}`)}, false},
+		{`{lt {0} 5} {gt ` + n2 + ` {0}} {lte 1 1} {gte {0} {0}}`, []Ctx{mk("3"), mk("x")}, false},
+		{`{! "[0] * 2 + ` + n2 + `"} {! 1 + 2 * 3}`, []Ctx{mk("4"), mk("z")}, false},
+		{`{bytesize {0}} {bytesize ` + n1 + `000 2} {bytesizesi {0} 1} {downscale ` + n1 + `000}`, []Ctx{mk("123456")}, false},
+		{`{repeat ab 3}{repeat {0} 2} {bar {0} 10 10} {bar 5 10 10}`, []Ctx{mk("3")}, false},
+		{`{color red {0}} {color blue X}`, []Ctx{mk("y")}, false},
+		{`{isnum {0}} {isnum ` + n1 + `.5} {log10 {0}} {sqrt 16} {pow 2 {0}}`, []Ctx{mk("100")}, false},
+		{`{lookup {0} nofile} {haskey {0} nofile} {load nofile}`, []Ctx{mk("k")}, false},
+	}
+	var cases []Case
+	for _, t := range list {
+		e := &EqIn{Kind: "lib", Tmpl: t.tmpl, Ctxs: append(t.ctxs, empty)}
+		tags := []string{"unmodelled-helpers"}
+		if t.poison {
+			tags = append(tags, "kf:C10-time-autodetect-probe")
+		}
+		cases = append(cases, mkEqCase(e, runEq(e), tags))
+	}
+	return cases
+}
+
+// the rare binary: global switches x a funcs-file function whose body has an argument-free
+// sub-expression depending on that switch
+func (g *gen) eqCliCases() []Case {
+	r := g.r
+	bodies := []string{`{hi 1234567}`, `{hf 9876543.25}`, `{color red X}`, `{bar 5 10 10}`, `{bytesize 2048}`, `{load aux.txt}`, `{hi {0}000}`}
+	switches := [][]string{{"--noformat"}, {"--nocolor"}, {"--color"}, {"--nounicode"}, {"--noload"}, {}, {"--noformat", "--nounicode", "--color"}}
+	var cases []Case
+	emit := func(sw []string, b string, envFuncs bool) {
+		name := Pick(r, []string{"total", "fmt1", "u_x"})
+		bodyText := b + Pick(r, []string{" {0}", "-{0}", "{0}"})
+		argv := Pick(r, []string{"x", "42", "{0}"})
+		phrase := name + " " + bodyText
+		cont := false
+		lines := g.layoutDef(phrase, &cont)
+		e := &EqIn{Kind: "cli", Switches: sw, Funcs: strings.Join(lines, "\n") + "\n",
+			Files: [][2]string{{"aux.txt", "file-content"}}, Call: "{" + name + " " + argv + "}",
+			Inlined: strings.ReplaceAll(bodyText, "{0}", argv), Data: []string{"7"}, EnvFuncs: envFuncs}
+		cases = append(cases, mkEqCase(e, runEq(e), []string{"cli", "cli:" + strings.Join(sw, "+")}))
+	}
+	// every switch with the sub-expression it governs, then a few random pairs
+	emit(switches[0], bodies[0], false)
+	emit(switches[0], bodies[1], false)
+	emit(switches[2], bodies[2], false)
+	emit(switches[1], bodies[2], false)
+	emit(switches[3], bodies[3], false)
+	emit(switches[4], bodies[5], false)
+	emit(switches[6], bodies[0]+bodies[2]+bodies[3], false)
+	emit(switches[0], bodies[6], true)
+	for i := 0; i < 2; i++ {
+		emit(Pick(r, switches), Pick(r, bodies), r.Chance(1, 3))
+	}
+	return cases
 }
 
 // ---------------------------------------------------------------- generators
@@ -1027,6 +1284,11 @@ func c10Gen(r *Rng, n int, tier string) []Case {
 	if tier != "quick" {
 		nTimed = 40
 	}
+	cases = append(cases, g.eqLibCases()...)
+	cases = append(cases, g.eqCliCases()...)
+	if rareBin != "" {
+		defer os.Remove(rareBin)
+	}
 	for len(cases) < n-nTimed {
 		in, tags, nt := g.plainCase()
 		cc := compileCase(in)
@@ -1055,6 +1317,8 @@ func main() {
 			"3 of 5 cases load a generated functions file of 1-3 definitions (later ones calling earlier ones; bodies using {0}..{2}, keys, binders) under a random layout (comment and blank lines, trailing comments, indentation, continuation cuts after spaces and elsewhere, CRLF, missing final newline; 1 in 14 definitions malformed) through funcfile.LoadDefinitions + funclib.TryAddFunctions, and call the functions with fewer / exactly / more arguments than the body uses; the harness also prints the template with every call replaced by its substituted body; " +
 			"every template is compiled by funclib.NewKeyBuilderEx(true) and (false) and evaluated on 1-3 generated contexts plus the all-empty context with a look-up-counting context, then 3 rounds from each of 1-8 goroutines sharing the compiled expressions; " +
 			"timed cases ({time now|live|delta} plain, nested, inside a funcs-file function, inside @map) are evaluated twice 1.1 s apart and only 'did the value change' is observed. " +
+			"equality-only cases (no model prediction): 30 templates over helpers that are not modelled (time with auto-detected / given formats, buckettime, timeformat, durations, floats, format, @split/@join/@slice/@select/@range, paths, json, !, byte sizes, repeat/bar/color, lookup/load) with constant, dynamic and mixed text in the arguments and seeded dates/numbers: optimising builder = plain builder on every context, the all-empty one last; " +
+			"10 command-line cases: the rare binary built from $VERIF_REPO, a generated functions file (random layout) whose body has an argument-free sub-expression governed by a global switch ({hi ..} {hf ..} --noformat, {color ..} --color/--nocolor, {bar ..} --nounicode, {load ..} --noload), `rare <switch> --funcs F expression <call>`, the same with --no-optimize, and `rare <switch> expression <inlined body>` with and without --no-optimize (one case through RARE_FUNC_FILES): the four stdout+exit-code strings must be equal. " +
 			"distinct = distinct (functions file, template, contexts); non-trivial = a helper call mixing constant and dynamic arguments, a funcs-file call, a binder, a malformed functions file or a timed case.",
 		Gen: c10Gen,
 		Replay: func(d json.RawMessage) (Case, error) {
@@ -1066,6 +1330,9 @@ func main() {
 				return Case{}, err
 			}
 			in := doc.Input
+			if in.Eq != nil {
+				return mkEqCase(in.Eq, runEq(in.Eq), []string{"replay"}), nil
+			}
 			cc := compileCase(in)
 			if in.Timed {
 				return mkCase(in, evalTimed([]*compiledCase{&cc})[0], true, []string{"replay"}), nil
